@@ -20,6 +20,8 @@ from collections import Counter
 from .boot import HarnessError, VERIF_DIR, in_repo
 
 MAX_ROUNDS = 3
+DISTINCT_CAP_WORKER = 400_000   # memory bound for the distinct/non-trivial set: beyond it the count is a lower bound
+DISTINCT_CAP_TOTAL = 6_000_000
 SHRINK_SECONDS = 25.0     # wall-clock budget for shrinking one failure (never a correctness signal)
 
 
@@ -86,7 +88,10 @@ class Reporter:
         for lab in labels:
             self.labels[lab] += n
         if nontrivial:
-            self.nontrivial.add(digest(key if key is not None else sample))
+            if len(self.nontrivial) < DISTINCT_CAP_WORKER:
+                self.nontrivial.add(digest(key if key is not None else sample))
+            else:
+                self.labels["distinct-count-capped(lower-bound)"] += n
         if sample is not None:
             cnt = self.per_sub[sub]
             lst = self.samples.setdefault(sub, [])
@@ -129,7 +134,10 @@ class Reporter:
     def merge(self, d):
         self.evaluations += d["evaluations"]
         self.labels.update(d["labels"])
-        self.nontrivial |= d["nontrivial"]
+        if len(self.nontrivial) < DISTINCT_CAP_TOTAL:
+            self.nontrivial |= d["nontrivial"]
+        else:
+            self.labels["distinct-count-capped(lower-bound)"] += len(d["nontrivial"])
         for sub, lst in d["samples"].items():
             mine = self.samples.setdefault(sub, [])
             for s in lst:
